@@ -216,8 +216,12 @@ func (c c05) Run(x *Exec, scn any) {
 		lg := LogSpec{Name: "main", Type: s.Kind, Tags: []string{"_app_*"}, Level: s.Level, Layout: s.LLayout}
 		switch s.Kind {
 		case "Logger":
-			spec.Apps = []AppSpec{{Name: "f", Type: "File", FileDir: "/logs", FileName: "sync.log"}, {Name: "c", Type: "Console"}}
-			lg.Refs = []RefSpec{{Ref: "f", Level: "TRACE~TOP"}, {Ref: "c", Level: "VERBOSE~CRIT"}}
+			fname := "f"
+			if s.Knobs.MapSeed%2 == 1 {
+				fname = "main" // appenders and loggers have name spaces of their own: the same name may occur in both
+			}
+			spec.Apps = []AppSpec{{Name: fname, Type: "File", FileDir: "/logs", FileName: "sync.log"}, {Name: "c", Type: "Console"}}
+			lg.Refs = []RefSpec{{Ref: fname, Level: "TRACE~TOP"}, {Ref: "c", Level: "VERBOSE~CRIT"}}
 			lg.Layout = ""
 		case "File":
 			spec.Apps = []AppSpec{{Name: "unused", Type: "Discard"}}
